@@ -17,19 +17,20 @@ def norm_attr(a):
     return {"name": a["name"], "idx": -1 if a.get("idx") in (None, -1) else a["idx"], "v": v}
 
 
-def norm_obj(o):
+def norm_obj(o, intern=None):
     sub = {"Certificate": o.get("ctype", "X_509"), "SecretData": o.get("dtype", "PASSWORD"),
            "OpaqueData": o.get("odtype", "NONE")}.get(o["type"], "NA")
     iskey = o["type"] in ("SymmetricKey", "PublicKey", "PrivateKey", "SplitKey")
     return {"type": o["type"], "val": o.get("val", ""), "alg": o.get("alg") or "NA", "len": o.get("len") or 0,
-            "fmt": (o.get("fmt") or "RAW") if iskey else "NA", "sub": sub, "wrapped": bool(o.get("wrap"))}
+            "fmt": (o.get("fmt") or "RAW") if iskey else "NA", "sub": sub, "wrapped": bool(o.get("wrap")),
+            "vlen": len(intern.val(o["val"])) if intern is not None and o.get("val") else 0}
 
 
 def vcode(ver):
     return ver[0] * 10 + ver[1]
 
 
-def norm_p(op, p, ver):
+def norm_p(op, p, ver, intern=None):
     """abstract item parameters -> the fixed-shape record the spec reads."""
     p = p or {}
     v2 = tuple(ver) >= (2, 0)
@@ -43,7 +44,7 @@ def norm_p(op, p, ver):
     if op == "Register":
         return {"otype": p["otype"], "attrs": [norm_attr(a) for a in p.get("attrs", [])],
                 "hasobj": bool(p.get("obj")),
-                "obj": norm_obj(p["obj"]) if p.get("obj") else norm_obj({"type": "OpaqueData"})}
+                "obj": norm_obj(p["obj"], intern) if p.get("obj") else norm_obj({"type": "OpaqueData"})}
     if op == "DeriveKey":
         return {"otype": p["otype"], "uids": list(p.get("uids", [])),
                 "attrs": [norm_attr(a) for a in p.get("attrs", [])], "method": p.get("method", "HMAC")}
@@ -63,7 +64,7 @@ def norm_p(op, p, ver):
     if op in ("GetAttributeList", "Activate", "Destroy"):
         return {"uid": uid}
     if op == "Revoke":
-        return {"uid": uid, "code": p.get("code") or ""}
+        return {"uid": uid, "code": p.get("code") or "UNSPECIFIED"}     # the payload's default
     if op == "Query":
         return {"qops": "QUERY_OPERATIONS" in p.get("functions", ["QUERY_OPERATIONS"])}
     if op == "DiscoverVersions":
@@ -99,12 +100,12 @@ def ts_class(ts):
     return "Ok"
 
 
-def norm_req(req, now):
+def norm_req(req, now, intern=None):
     ver = tuple(req.get("ver", (1, 2)))
     return {"user": req.get("user") or "", "hasg": req.get("groups") is not None,
             "groups": list(req.get("groups") or []), "ver": vcode(ver), "opt": req.get("opt") or "None",
             "ts": ts_class(req.get("ts")), "async": bool(req.get("async")), "now": now,
-            "items": [{"op": it["op"], "bid": it.get("bid") or "", "p": norm_p(it["op"], it.get("p"), ver)}
+            "items": [{"op": it["op"], "bid": it.get("bid") or "", "p": norm_p(it["op"], it.get("p"), ver, intern)}
                       for it in req["items"]]}
 
 
@@ -241,7 +242,7 @@ class Recorder(object):
         res = self.drv.request(req)
         post = self.drv.state()
         step = {"kind": "req", "pre": norm_state(pre), "post": norm_state(post), "mids": list(self._mids),
-                "executed": len(self._mids), "req": norm_req(req, now), "res": norm_res(res, self.nf),
+                "executed": len(self._mids), "req": norm_req(req, now, self.drv.intern), "res": norm_res(res, self.nf),
                 "issued": sorted(self.issued), "gf": bool(self.gfh.hit),
                 "broken": pre["broken"] + post["broken"]}
         self.issued.update(o["uid"] for o in post["objs"])
@@ -266,10 +267,18 @@ class Recorder(object):
 def validate(traces, workers=None, name="traces"):
     """Run TraceEngine.tla over the traces. Returns (verdicts, drifts, TLCResult)."""
     path = os.path.join(common.scratch(), "%s_%d.json" % (name, os.getpid()))
+    polsets, index, out = [], {}, []
+    for t in traces:
+        key = common.jdump(t["pols"])
+        if key not in index:
+            polsets.append(t["pols"])
+            index[key] = len(polsets)
+        out.append({"tid": t["tid"], "ps": index[key], "steps": t["steps"]})
     with open(path, "w") as f:
-        json.dump(traces, f)
-    cfg = tlc.write_cfg("TraceEngine_%s.cfg" % name, "SPECIFICATION Spec\nCHECK_DEADLOCK FALSE\n")
-    res = tlc.run("TraceEngine", cfg, workers=workers, env={"TRACE_FILE": path}, timeout=3600)
+        json.dump({"polsets": polsets, "traces": out}, f)
+    cfg = tlc.write_cfg("TraceEngine_%s.cfg" % name,
+                        "SPECIFICATION Spec\nCONSTANT Mut = \"none\"\nCHECK_DEADLOCK FALSE\n")
+    res = tlc.run("TraceEngine", cfg, workers=workers, env={"TRACE_FILE": path}, timeout=3600, heap="12g")
     nsteps = sum(len(t["steps"]) for t in traces)
     if res.distinct != nsteps + len(traces):
         raise common.MachineryFailure("trace validation consumed %d states, expected %d"
